@@ -26,7 +26,8 @@ PURE_GETTERS = {"to_be_bytes", "to_le_bytes", "to_bits", "to_bytes", "size", "is
 
 # ASSUMED values of dependency constants (dusk-bls12_381's `impl PrimeField for BlsScalar`: NUM_BITS = 255, CAPACITY = NUM_BITS - 1;
 # integer widths of the 64-bit target)
-DEP_CONSTS = {"BlsScalar::CAPACITY": 254, "BlsScalar::NUM_BITS": 255, "usize::BITS": 64, "u64::BITS": 64, "u32::BITS": 32}
+DEP_CONSTS = {"BlsScalar::CAPACITY": 254, "BlsScalar::NUM_BITS": 255, "usize::BITS": 64, "u64::BITS": 64, "u32::BITS": 32,
+              "BlsScalar::SIZE": 32, "G1Affine::SIZE": 48, "G2Affine::SIZE": 96, "G1Affine::RAW_SIZE": 97, "u64::SIZE": 8, "u32::SIZE": 4}
 DEP_CONSTS_U64 = {"u64::MAX": 0xFFFFFFFFFFFFFFFF}        # become U64-tagged values (the class is defined below)
 
 
@@ -759,6 +760,22 @@ class Interp:
     def run_fn_body(self, ast, env):
         """the body of a crate function (the unit's own or an inlined helper): statements that belong to a memo cache are left out (the run
         computes the MISS path, see vlib/memo.py); the cache's soundness findings are collected for the unit's obligations"""
+        rel_ = ast.get("__rel__")
+        if rel_ and getattr(self, "file_root", None) and rel_ != self.file_root[1]:
+            # a helper that lives in ANOTHER file sees that file's `const` items
+            saved_c = self.consts
+            try:
+                extra = file_consts(self.file_root[0], rel_)
+            except Exception:
+                extra = {}
+            self.consts = dict(extra, **saved_c)
+            try:
+                return self._run_fn_body(ast, env)
+            finally:
+                self.consts = saved_c
+        return self._run_fn_body(ast, env)
+
+    def _run_fn_body(self, ast, env):
         mm = ast.get("__memo__") if getattr(self, "memo_enabled", True) else None
         if not mm:
             return self.block(ast["body"], env)
@@ -2061,6 +2078,12 @@ class Interp:
             if isinstance(recv, VIter) and isinstance(a, VIter):
                 n = min(len(recv.items), len(a.items))
                 return VIter([VTuple([recv.items[i], a.items[i]]) for i in range(n)])
+            if isinstance(recv, VIter) and isinstance(a, Sym):
+                # a concrete sequence zipped with ONE chunk of `chunks_exact(k)` (exactly k elements): pairs with the chunk's first elements
+                import re as _re
+                mk_ = _re.search(r"chunks_exact\(.*, int:(\d+)\)\[\*\]$", a.path)
+                if mk_ and int(mk_.group(1)) >= len(recv.items):
+                    return VIter([VTuple([recv.items[i], Sym(f"{a.path}[{i}]")]) for i in range(len(recv.items))])
             if isinstance(recv, VSymIter) and isinstance(a, (VSymIter, Sym, VOpaque)):
                 # two symbolic sequences walked in lock step: the generic element is the pair of their generic elements
                 if not isinstance(a, VSymIter):
@@ -2328,6 +2351,10 @@ class Interp:
             src = args[0]
             for i in range(len(arr.items)):
                 arr.items[i] = VOpaque("spliced", [arr.items[i], lo, hi, src, i])      # element i after `arr[lo..hi] = src`
+            return UNIT
+        if m == "copy_from_slice" and isinstance(recv, VArr) and isinstance(args[0], (VOpaque, Sym)) and not (isinstance(args[0], VOpaque) and args[0].name == "slice"):
+            for i in range(len(recv.items)):
+                recv.items[i] = VOpaque("idx", [args[0], i])          # byte i of an opaque byte string (e.g. `x.to_bytes()`); lengths assumed equal (else panic)
             return UNIT
         if m == "copy_from_slice" and isinstance(recv, VArr) and isinstance(args[0], VOpaque) and args[0].name == "slice":
             for i in range(len(recv.items)):
@@ -2810,6 +2837,7 @@ def dump_ast(root, rel, fn_path):
         raise AstLost(v)
     if "__memo__" not in v:
         v["__memo__"] = _memo_info(root, rel, fn_path, v)
+        v["__rel__"] = rel
     return v
 
 
@@ -3161,7 +3189,11 @@ def _run_unit(root, unit, contracts, seed=0, perturb=None):
                 rules, used = _path_rules(pcs)
                 sub = bool(rules)
                 if rules:
-                    ok, detail2, cex2 = compare(_apply_rules(a, rules), _apply_rules(b, rules), seed)
+                    a_r, b_r = _apply_rules(a, rules), _apply_rules(b, rules)
+                    pn_ = getattr(unit, "post_norm", None)
+                    if pn_ is not None:
+                        a_r, b_r = pn_(k, a_r), pn_(k, b_r)       # unit-specific normal form that only makes sense AFTER the path's equalities are applied
+                    ok, detail2, cex2 = compare(a_r, b_r, seed)
                     if not ok:
                         detail, cex = detail2, cex2
                 if not ok:
